@@ -19,6 +19,8 @@ pub struct Monitor {
     qcs: Vec<QC>,
     /// rounds for which the node has been given (or could assemble) a QC or TC
     evidence: HashSet<u64>,
+    /// rounds for which the node was shown a certificate that does NOT verify (C04)
+    invalid_shown: HashSet<u64>,
     /// delivered valid votes: (hash, round) -> signer ids
     votes_in: HashMap<([u8; 32], u64), HashSet<u64>>,
     /// delivered valid timeouts: round -> signer ids
@@ -51,6 +53,7 @@ impl Monitor {
             blocks: HashMap::new(),
             qcs: vec![],
             evidence: HashSet::new(),
+            invalid_shown: HashSet::new(),
             votes_in: HashMap::new(),
             timeouts_in: HashMap::new(),
             batches: HashSet::new(),
@@ -142,6 +145,15 @@ impl Monitor {
                     if let Some(t) = &b.tc {
                         self.evidence.insert(t.round);
                     }
+                } else {
+                    if !Self::valid_qc(u, &b.qc) {
+                        self.invalid_shown.insert(b.qc.round);
+                    }
+                    if let Some(t) = &b.tc {
+                        if !Self::valid_tc(u, t) {
+                            self.invalid_shown.insert(t.round);
+                        }
+                    }
                 }
             }
             Stim::Msg(ConsensusMessage::Vote(v)) => {
@@ -176,6 +188,8 @@ impl Monitor {
             Stim::Msg(ConsensusMessage::TC(t)) => {
                 if Self::valid_tc(u, t) {
                     self.evidence.insert(t.round);
+                } else {
+                    self.invalid_shown.insert(t.round);
                 }
             }
             _ => {}
@@ -203,6 +217,14 @@ impl Monitor {
         }
         if round > 1 && !self.evidence.contains(&(round - 1)) {
             rep.finding("impl_vs_property", "C10:round-without-certificate", format!("{} in round {} but no QC/TC of round {} was ever available to the node", what, round, round - 1), replay.clone());
+            if self.invalid_shown.contains(&(round - 1)) {
+                rep.finding(
+                    "impl_vs_property",
+                    "C04:invalid-certificate-took-effect",
+                    format!("{} in round {}: the only certificate of round {} the node was ever shown does not verify (sub-quorum / bad or repeated signers), yet the node moved on it", what, round, round - 1),
+                    replay.clone(),
+                );
+            }
         }
         self.last_act_round = self.last_act_round.max(round);
     }
